@@ -33,29 +33,29 @@ const Denom = "loya"
 
 // GenesisCfg is the drawn configuration of one run. It is recorded verbatim in the trace.
 type GenesisCfg struct {
-	ChainID         string  `json:"chain_id"`
-	GenesisUnix     int64   `json:"genesis_unix"`
-	ValStakes       []int64 `json:"val_stakes"`  // loya self-delegated by each genesis validator
-	Candidates      int     `json:"candidates"`  // extra nodes with consensus keys that may become validators later
-	Witnesses       int     `json:"witnesses"`   // non-validating full nodes
-	AcctBalances    []int64 `json:"acct_bal"`    // liquid loya per plain account
-	GenDelegations  []GenDelegation `json:"gen_delegations"`
-	MaxValidators   uint32  `json:"max_validators"`
-	UnbondingSec    int64   `json:"unbonding_sec"`
-	MinTrb          int64   `json:"min_trb"`
-	MaxSelectors    uint64  `json:"max_selectors"`
-	MinStakeAmount  int64   `json:"min_stake_amount"`
-	MaxReportWindow uint64  `json:"max_report_window"`
-	SpotWindow      uint64  `json:"spot_window"`
-	CycleList       [][2]string `json:"cycle_list"` // (asset, currency) pairs of spotprice queries
-	GovVotingSec    int64   `json:"gov_voting_sec"`
-	SignedBlocksWindow int64 `json:"signed_blocks_window"`
-	DowntimeJailSec int64   `json:"downtime_jail_sec"`
-	SnapshotLimit   uint64  `json:"snapshot_limit"`
-	TeamAcct        int     `json:"team_acct"`
-	Twins           []int   `json:"twins,omitempty"` // plain accounts with identical balances reserved for exact vote ties
-	KeyringShipped  bool    `json:"keyring_shipped"` // use the shipped viper+file keyring path instead of hook H1
-	NodeCfgs        []NodeCfg `json:"node_cfgs"`
+	ChainID            string          `json:"chain_id"`
+	GenesisUnix        int64           `json:"genesis_unix"`
+	ValStakes          []int64         `json:"val_stakes"` // loya self-delegated by each genesis validator
+	Candidates         int             `json:"candidates"` // extra nodes with consensus keys that may become validators later
+	Witnesses          int             `json:"witnesses"`  // non-validating full nodes
+	AcctBalances       []int64         `json:"acct_bal"`   // liquid loya per plain account
+	GenDelegations     []GenDelegation `json:"gen_delegations"`
+	MaxValidators      uint32          `json:"max_validators"`
+	UnbondingSec       int64           `json:"unbonding_sec"`
+	MinTrb             int64           `json:"min_trb"`
+	MaxSelectors       uint64          `json:"max_selectors"`
+	MinStakeAmount     int64           `json:"min_stake_amount"`
+	MaxReportWindow    uint64          `json:"max_report_window"`
+	SpotWindow         uint64          `json:"spot_window"`
+	CycleList          [][2]string     `json:"cycle_list"` // (asset, currency) pairs of spotprice queries
+	GovVotingSec       int64           `json:"gov_voting_sec"`
+	SignedBlocksWindow int64           `json:"signed_blocks_window"`
+	DowntimeJailSec    int64           `json:"downtime_jail_sec"`
+	SnapshotLimit      uint64          `json:"snapshot_limit"`
+	TeamAcct           int             `json:"team_acct"`
+	Twins              []int           `json:"twins,omitempty"` // plain accounts with identical balances reserved for exact vote ties
+	KeyringShipped     bool            `json:"keyring_shipped"` // use the shipped viper+file keyring path instead of hook H1
+	NodeCfgs           []NodeCfg       `json:"node_cfgs"`
 }
 
 type GenDelegation struct {
